@@ -69,7 +69,7 @@ theorem derivs_count_le {t : Task Nat} {r : RTask Nat} {l : List (Ev Nat)} (h : 
 theorem inv_at_most_once {P : APlan} {c : Ctl} {l : List AEv} (hi : Inv P c l) (hnd : P.job.sys.Nodup)
     (d : Nat) (e : Ev Nat) : (projD d l).count e ≤ 1 := by
   obtain ⟨data, job, caller, n⟩ := c
-  obtain ⟨_, hbey, hear, hcur, _, _, _⟩ := hi
+  obtain ⟨_, hbey, hear, hcur, _, _, _, _, _⟩ := hi
   simp only at hbey hear hcur
   by_cases h1 : n ≤ d
   · rw [hbey d h1]; simp
@@ -81,6 +81,7 @@ theorem inv_at_most_once {P : APlan} {c : Ctl} {l : List AEv} (hi : Inv P c l) (
       | running r => exact derivs_count_le hcur.2 hnd e
       | idle => exact traces_count_le (hcur (by omega)) hnd e
       | sent => exact traces_count_le (hcur (by omega)) hnd e
+      | failed r ps g => exact derivs_count_le hcur.2 hnd e
 
 /-! ### thread-local systems inside `wait` -/
 
@@ -100,75 +101,64 @@ theorem tlSince_append (l l' : List AEv) (acc : List (Ev Nat)) :
 def tlOk (P : APlan) (l : List AEv) : Caller → Prop
   | .called _ => tlSince l [] = []
   | .inTl r => derivs P.tlTask.toR (tlSince l []) = some r
+  | .tlFailed => ∃ r x, derivs P.tlTask.toR (tlSince l []) = some r ∧ x ∈ opens r
   | _ => True
 
 theorem step_tlOk {P : APlan} {c c' : Ctl} {l : List AEv} {lb : Lbl} {o : Option AEv}
     (hi : tlOk P l c.caller) (hs : step P c lb = some (c', o)) : tlOk P (l ++ optList o) c'.caller := by
   obtain ⟨data, job, caller, n⟩ := c
   simp only at hi
-  cases lb with
-  | call op =>
-    cases caller <;> simp only [step] at hs <;> cases hs
-    simp [tlOk, optList, tlSince_append, tlSince]
-  | acquire =>
-    cases caller <;> simp only [step] at hs <;> try (cases hs)
-    rename_i op
-    split at hs
-    · cases hs
-    · split at hs
-      · cases hs
-        simp only [tlOk] at hi
-        by_cases hw : op = .wait <;> simp [hw, tlOk, optList, hi, derivs]
-      · cases hs
-  | poll =>
-    cases caller <;> simp only [step] at hs <;> try (cases hs)
-    rename_i op
-    cases op <;> simp only at hs <;> try (cases hs)
-    cases data <;> cases job <;> simp only at hs <;> cases hs <;> simp [tlOk]
-  | spawn =>
-    cases caller <;> simp only [step] at hs <;> try (cases hs)
-    rename_i op
-    cases op <;> simp only at hs <;> cases hs
-    simp [tlOk]
-  | ret =>
-    cases caller <;> simp only [step] at hs <;> try (cases hs)
-    · rename_i op
-      cases op <;> simp only at hs <;> cases hs <;> simp [tlOk]
-    · simp [tlOk]
-    · split at hs <;> cases hs
-      simp [tlOk]
-    · simp [tlOk]
-  | tlEv e =>
-    cases caller <;> simp only [step] at hs <;> try (cases hs)
-    split at hs
-    · rename_i r' hr
-      cases hs
-      simp only [tlOk] at hi ⊢
-      simp only [optList, tlSince_append, tlSince]
-      rw [derivs_snoc, hi]
-      exact hr
-    · cases hs
-  | jobEv e =>
-    cases job <;> simp only [step] at hs <;> try (cases hs)
-    split at hs
-    · cases hs
-      cases caller <;> simp_all [tlOk, optList, tlSince_append, tlSince]
-    · cases hs
-  | send =>
-    cases job <;> simp only [step] at hs <;> try (cases hs)
-    split at hs
-    · cases hs
-      cases caller <;> simp_all [tlOk, optList]
-    · cases hs
-  | observe =>
-    cases caller <;> simp only [step] at hs <;> try (cases hs)
-    split at hs <;> cases hs
-    simp [tlOk]
+  cases lb <;> simp only [step] at hs <;> (repeat' (split at hs)) <;> (try cases hs) <;>
+    (try (simp_all [tlOk, optList, tlSince_append, tlSince, derivs]; done))
+  · rename_i op _ _
+    cases op <;> simp_all [tlOk, optList, afterAcquire, derivs]
+  · rename_i r r' hr
+    simp only [tlOk] at hi ⊢
+    simp only [optList, tlSince_append, tlSince]
+    rw [derivs_snoc, hi]
+    exact hr
+  · rename_i r hx
+    simp only [tlOk] at hi ⊢
+    exact ⟨r, _, by simpa [optList, tlSince_append, tlSince] using hi, by simpa using hx⟩
 
 theorem run_tl {P : APlan} {c : Ctl} {l : List AEv} (h : Run P c l) : tlOk P l c.caller := by
   induction h with
   | init => trivial
   | step _ hs ih => exact step_tlOk ih hs
+
+/-! ### setup hooks inside `setup` -/
+
+/-- the setup hooks called since the most recent `call` -/
+def hookSince : List AEv → List Nat → List Nat
+  | [], acc => acc
+  | .call _ :: l, _ => hookSince l []
+  | .hook _ x :: l, acc => hookSince l (acc ++ [x])
+  | _ :: l, acc => hookSince l acc
+
+theorem hookSince_append (l l' : List AEv) (acc : List Nat) :
+    hookSince (l ++ l') acc = hookSince l' (hookSince l acc) := by
+  induction l generalizing acc with
+  | nil => rfl
+  | cons a l ih => cases a <;> simp [hookSince, ih]
+
+def hkOk (P : APlan) (l : List AEv) : Caller → Prop
+  | .called _ => hookSince l [] = []
+  | .inSetup rest => hookSince l [] ++ rest = P.job.sys ++ P.tl
+  | _ => True
+
+theorem step_hkOk {P : APlan} {c c' : Ctl} {l : List AEv} {lb : Lbl} {o : Option AEv}
+    (hi : hkOk P l c.caller) (hs : step P c lb = some (c', o)) : hkOk P (l ++ optList o) c'.caller := by
+  obtain ⟨data, job, caller, n⟩ := c
+  simp only at hi
+  cases lb <;> simp only [step] at hs <;> (repeat' (split at hs)) <;> (try cases hs) <;>
+    (try (simp_all [hkOk, optList, hookSince_append, hookSince]; done))
+  · rename_i op _ _
+    cases op <;> simp_all [hkOk, optList, afterAcquire]
+
+theorem run_hk {P : APlan} {c : Ctl} {l : List AEv} (h : Run P c l) : hkOk P l c.caller := by
+  induction h with
+  | init => trivial
+  | step _ hs ih => exact step_hkOk ih hs
 
 /-- `for sys in &mut self.thread_local { sys.run_now(world) }` has exactly one trace -/
 theorem traces_seqN_leaf (tl : List Nat) (l : List (Ev Nat))
